@@ -131,6 +131,16 @@ function runShard(info, thorough) {
     const succs = (!thorough || c < 0x3000) ? SUCCESSORS : ['', '7', 'a', '\\']
     for (const s of succs) cases.push({ c, s: ch + s })
   }
+  // longer strings over the characters the string emitters treat specially (NUL, backslash, octal digits, quotes, braces):
+  // every string of length 3 (quick) / 3 and 4 (thorough) — a rewrite of one escape must not touch its neighbours
+  const CRITICAL = ['\0', '\\', '0', '7', '8', '"', "'", 'x', 'u', '{', '\n']
+  let cubeIndex = 0
+  const cube = (cur, len, max) => {
+    if (len >= 3) { if (cubeIndex++ % info.of === info.shard) cases.push({ c: cur.codePointAt(0), s: cur, cube: true }) }
+    if (len === max) return
+    for (const ch of CRITICAL) cube(cur + ch, len + 1, max)
+  }
+  cube('', 0, thorough ? 4 : 3)
   const PER = 600
   for (let start = 0; start < cases.length; start += PER * 8) {
     const jobs = []
@@ -309,7 +319,7 @@ async function main() {
   }
   const rep = await C.runSharded(__filename, ['--tier', thorough ? 'thorough' : 'quick'])
   const res = rep.toResult('C12',
-    'every Unicode scalar value below U+3000 plus block boundaries (quick) / every scalar value (thorough), followed by each of 16 successors, embedded in 15 markup contexts, as wx:key, template name and static template-is target (looked up), (double / single quoted attribute, class, style, id, slot, data-, data:, mark, two event handlers, generic, extra-attr, worklet, static text), 3 string-literal spellings inside expressions (raw in either quote, \\xHH / \\uHHHH), decimal / hex character references in attribute and text, and all 2231 named character references; the string delivered to the recording runtime must equal the denoted string. non-trivial = non-ASCII, control or markup-significant character; distinct = distinct string',
+    'every Unicode scalar value below U+3000 plus block boundaries (quick) / every scalar value (thorough), followed by each of 16 successors, and every string of length 3 (quick) / 3-4 (thorough) over 11 critical characters (NUL, backslash, 0 7 8, both quotes, x u, brace, newline), embedded in 15 markup contexts, as wx:key, template name and static template-is target (looked up), (double / single quoted attribute, class, style, id, slot, data-, data:, mark, two event handlers, generic, extra-attr, worklet, static text), 3 string-literal spellings inside expressions (raw in either quote, \\xHH / \\uHHHH), decimal / hex character references in attribute and text, and all 2231 named character references; the string delivered to the recording runtime must equal the denoted string. non-trivial = non-ASCII, control or markup-significant character; distinct = distinct string',
     { scalars: thorough ? 'all 1112064' : 'U+0000..U+2FFF + boundaries', successors: SUCCESSORS, contexts: [...Object.keys(FIND_A), ...Object.keys(FIND_B), 'decimal-reference', 'hex-reference', 'HEX-reference', 'references-in-text', 'named-entity', 'wx:key', 'template-name', 'template-is', 'template-lookup'] },
     true,
     ['V8 executes the generated code', 'characters a context cannot carry raw are spelled as documented (&amp; &lt; &quot; &#39; &#123;, backslash escapes in literals)', 'spellings the parser rejects at Error level are outside the property and counted'],
